@@ -139,13 +139,13 @@ func c06DescribeIndex(mi *mIdx, dead map[string]bool) string {
 	var sb strings.Builder
 	fmt.Fprintf(&sb, "%s/%s live={", mi.Cfg.Metric, mi.Prec)
 	for _, id := range c06LiveIDs(mi) {
-		fmt.Fprintf(&sb, " %s:%s", id, c08lessJSON(mi.Live[id].Meta))
+		fmt.Fprintf(&sb, " %s:%s", id, c06MetaStr(mi.Live[id].Meta))
 	}
 	fmt.Fprintf(&sb, " } deleted=%v", c06SortedKeys(dead))
 	return sb.String()
 }
 
-func c08lessJSON(m map[string]any) string {
+func c06MetaStr(m map[string]any) string {
 	keys := make([]string, 0, len(m))
 	for k := range m {
 		keys = append(keys, k)
@@ -207,8 +207,33 @@ func (cr *c06Runner) query(q c06Query) string {
 	// ---- resolve
 	rq := c06Resolved{Idx: idx, Scope: q.Scope, Alpha: q.Alpha}
 	if q.Scope != nil && q.RootPick >= 0 && n > 0 {
+		// root = a live id; live ids that have an active edge to another live id are preferred (otherwise the scope
+		// holds the root alone and nothing can be wrongly admitted or wrongly excluded by the traversal)
 		sc := *q.Scope
-		sc.Root = live[q.RootPick%n]
+		cands := live
+		var linked []string
+		pre := idx + "::"
+		for _, id := range live {
+			for _, ed := range r.M.Edges {
+				if ed.D != 0 || ed.Src == ed.Tgt {
+					continue
+				}
+				other := ""
+				if ed.Src == pre+id && strings.HasPrefix(ed.Tgt, pre) {
+					other = ed.Tgt[len(pre):]
+				} else if ed.Tgt == pre+id && strings.HasPrefix(ed.Src, pre) {
+					other = ed.Src[len(pre):]
+				}
+				if other != "" && mi.Live[other] != nil {
+					linked = append(linked, id)
+					break
+				}
+			}
+		}
+		if len(linked) > 0 && q.RootPick%4 != 3 {
+			cands = linked
+		}
+		sc.Root = cands[q.RootPick%len(cands)]
 		rq.Scope = &sc
 	}
 	kind := q.VecKind
@@ -424,7 +449,7 @@ func (cr *c06Runner) query(q c06Query) string {
 				return fail("result #%d %q cannot be read back with VGet: %v", i, ht.ID, err)
 			}
 			if useFilter && !mayFilter[ht.ID] {
-				return fail("result %q has metadata %s which does not satisfy the filter %q", ht.ID, c08lessJSON(mv.Meta), rq.FilterText)
+				return fail("result %q has metadata %s which does not satisfy the filter %q", ht.ID, c06MetaStr(mv.Meta), rq.FilterText)
 			}
 			if useScope && scope != nil && !scope[ht.ID] {
 				return fail("result %q is outside the graph scope; nodes inside: %v", ht.ID, c06SortedKeys(scope))
@@ -468,7 +493,7 @@ func (cr *c06Runner) query(q c06Query) string {
 						return fail("breakdown similarity of %q is %s, recomputed 1/(1+d) lies in [%s, %s] (stored vector %s)", ht.ID, fm(ht.Sim), fm(sLo), fm(sHi), c06FmtVec(vd.Vector))
 					}
 					if ht.DF < fLo*(1-rel) || ht.DF > fHi*(1+rel) {
-						return fail("breakdown decay factor of %q is %s, the documented factor lies in [%s, %s] (metadata %s)", ht.ID, fm(ht.DF), fm(fLo), fm(fHi), c08lessJSON(normMeta(vd.Metadata)))
+						return fail("breakdown decay factor of %q is %s, the documented factor lies in [%s, %s] (metadata %s)", ht.ID, fm(ht.DF), fm(fLo), fm(fHi), c06MetaStr(normMeta(vd.Metadata)))
 					}
 					if p := ht.Sim * ht.DF; math.Abs(ht.Score-p) > 1e-12+1e-9*math.Abs(p) {
 						return fail("score of %q is %s but similarity x decay = %s x %s = %s", ht.ID, fm(ht.Score), fm(ht.Sim), fm(ht.DF), fm(p))
@@ -597,9 +622,13 @@ func c06Run(c c06Case, seed int64, st *c06Stats) (msg string) {
 		for qi < len(c.Queries) && c.Queries[qi].At <= upto {
 			q := c.Queries[qi]
 			qi++
+			at := upto
+			if at >= len(c.Ops) {
+				at = len(c.Ops) - 1
+			}
 			if m := cr.query(q); m != "" {
 				// ids minted by VEvolve carry a wall-clock suffix: mask it, rapid only shrinks failures whose text is reproducible
-				return c06EvolvedRe.ReplaceAllString(fmt.Sprintf("query #%d (after op %d): %s", qi-1, upto, m), "evolved_${1}_<time>")
+				return c06EvolvedRe.ReplaceAllString(fmt.Sprintf("query #%d (after op %d): %s", qi-1, at, m), "evolved_${1}_<time>")
 			}
 		}
 		return ""
